@@ -158,6 +158,10 @@ func (d *Decrypter) verifyAndDecryptMessage(decoded server.LoRaMessage) {
 	checked := 0
 	for _, dev := range devices {
 		checked++
+		if dev.NwkSKey.Empty() {
+			// No session established (OTAA device that hasn't joined yet)
+			continue
+		}
 		lg.Debug("Testing MIC for device %s", dev.DeviceEUI)
 		mic, err := decoded.Payload.CalculateMIC(dev.NwkSKey, rawMessage[0:len(rawMessage)-4])
 		if err != nil {
